@@ -73,6 +73,7 @@ var refOperators = []string{"(", ")", "[", "]", ",", ";", ".", "+", "-", "*", "/
 	":", "::", "|", "||", "&", "&&", "@", "@>", "@@", "#", "#>", "#>>", "#-", "?", "?|", "?&", "~", "~*", "->", "->>"}
 
 var refWords = []string{"SELECT", "FROM", "WHERE", "a", "b1", "_x", "tbl", "JOIN", "ON", "AND", "NOT", "NULL", "AS", "IN", "BY", "x_y_9", "naïve", "Ünï", "日本", "col̃", "LIKE",
+	"GROUP", "ORDER", "LEFT", "RIGHT", "INNER", "OUTER", "CROSS", "NATURAL", "FULL", "GROUPING", "left", "Order",
 	"INSERT", "VALUES", "UPDATE", "SET", "DELETE", "CASE", "WHEN", "END", "UNION", "ALL", "LIMIT", "OFFSET", "DESC", "IS", "BETWEEN", "EXISTS", "WITH"}
 
 var refCompoundFirst = []string{"GROUP", "ORDER", "LEFT", "RIGHT", "INNER", "OUTER", "CROSS", "NATURAL", "FULL", "GROUPING"}
